@@ -7,7 +7,8 @@ RULE = ("start documents with a unique comment and deliberate spacing on every e
         "nested arrays of tables, out-of-order headers, nested and dotted inline tables) x every history of <= 2 operations (quick: all single operations, second operations sampled) "
         "from {insert new key (scalar or table), replace value, remove, array push / insert / replace / remove, array-of-tables push / remove, "
         "sort_values, fmt, clear, to_inline, to_table} on every addressable table position, enumerated by TLC on the MCEdit machine (content-level laws checked); "
-        "each history is applied through the public API and printed after every step; TLC validates every step: valid TOML, "
+        "plus seeded random histories (quick 10 x <= 4 operations, thorough 150 x <= 6) on each of the ~180 toml-test documents that print "
+        "back unchanged, the operations drawn from what the API offers at each moment; each history is applied through the public API and printed after every step; TLC validates every step: valid TOML, "
         "content = operation applied to the previous content, survivors in their relative order (after sort_values: body pairs ascending, headers and value containers in their order), and every statement line and "
         "attached comment that the operation does not name still present verbatim and in order. "
         "distinct_nontrivial = distinct (document, history) pairs")
@@ -82,17 +83,27 @@ def run(ctx):
         hists += list(got.values())
     hp = ctx.path("hist.ndjson")
     core.write_ndjson(hp, hists)
+    # direction V: seeded random histories on every corpus document that prints back unchanged (the operations are
+    # drawn by the harness from what the API offers at the moment; TLC validates every step like the others)
+    corpus = ctx.path("corpus.ndjson")
+    ctx.harness(h, ["gen-corpus", "--dir", os.path.join(core.ROOT, "corpus"), "--out", corpus])
+    rp = ctx.path("hist-random.ndjson")
+    ctx.harness(h, ["gen-edit-random", "--corpus", corpus, "--n", 10 if ctx.quick else 150, "--len", 4 if ctx.quick else 6, "--seed", ctx.seed, "--out", rp])
+    nrand = sum(1 for _ in open(rp))
+    with open(hp, "a") as f:
+        f.write(open(rp).read())
+    ctx.extra["random_histories_on_corpus_documents"] = nrand
     evp = ctx.path("edit.ev")
     ctx.harness(h, ["edit-events", "--in", hp, "--docs", dp, "--out", evp])
     mism, _, n = ctx.validate(evp, chunk=2500, jvms=6, workers=2)
     steps = 0
     skipped = 0
     for e in core.read_ndjson(evp):
-        ctx.nontrivial.add((e["doc"], json.dumps([[s["op"], s["path"], s["key"], s["i"], s["v"]["k"]] for s in e["steps"]])))
+        ctx.nontrivial.add((e["doc"] or e["id"].split("#")[0], json.dumps([[s["op"], s["path"], s["key"], s["i"], s["v"]["k"]] for s in e["steps"]])))
         steps += sum(1 for s in e["steps"] if s["res"] == "ok")
         skipped += sum(1 for s in e["steps"] if s["res"] == "skip")
         if len(ctx.samples) < 4 and len(e["steps"]) == 2 and all(s["res"] == "ok" for s in e["steps"]) and len(ctx.nontrivial) % 97 == 0:
-            ctx.sample({"doc": e["doc"], "ops": [[s["op"], [core.uncps(x) if x and x[0] >= 0 else x for x in s["path"]], core.uncps(s["key"]), s["i"]] for s in e["steps"]],
+            ctx.sample({"doc": e["doc"], "ops": [[s["op"], [core.uncps(x) if not x or x[0] >= 0 else x for x in s["path"]], core.uncps(s["key"]), s["i"]] for s in e["steps"]],
                         "printed_after_last_step": core.uncps(e["steps"][-1]["text"])})
     # model drift of the implementation-shaped printer (EncodeImpl): reported in the evidence, never a violation
     drift = [m for m in mism if m["what"] == "drift-encode"]
@@ -106,11 +117,12 @@ def run(ctx):
     log("edit: %d histories, %d steps validated (%d not applicable to the API), %d mismatches %s" % (n, steps, skipped, len(mism), dict(cls)))
     for m in mism:
         d = m["detail"]
-        ops = " ; ".join("%s(%s/%s%s)" % (s["op"], "/".join(core.uncps(x) if x and x[0] >= 0 else str(x[1]) for x in s["path"]), core.uncps(s["key"]), "," + str(s["i"]) if s["op"].startswith("a") else "")
+        ops = " ; ".join("%s(%s/%s%s)" % (s["op"], "/".join(core.uncps(x) if not x or x[0] >= 0 else str(x[1]) for x in s["path"]), core.uncps(s["key"]), "," + str(s["i"]) if s["op"].startswith("a") else "")
                          for s in m["event"]["steps"][:d.get("step", 1)])
         extra = (" lost=" + json.dumps(core.uncps(d["lost"]))) if "lost" in d else ""
-        ctx.report("%s doc%d: %s%s" % (m["what"], m["event"]["doc"], ops, extra)[:300],
-                   {"kind": "edit", "event": {"doc": m["event"]["doc"], "ops": [{k: s[k] for k in ("op", "path", "key", "v", "i")} for s in m["event"]["steps"]]},
+        ctx.report("%s %s: %s%s" % (m["what"], ("doc%d" % m["event"]["doc"]) if m["event"]["doc"] else m["event"]["id"], ops, extra)[:300],
+                   {"kind": "edit", "event": dict({"doc": m["event"]["doc"], "ops": [{k: s[k] for k in ("op", "path", "key", "v", "i")} for s in m["event"]["steps"]]},
+                                             **({"start": m["event"]["start"], "id": m["event"]["id"]} if m["event"]["doc"] == 0 else {})),
                     "what": m["what"], "detail": d}, known_for(ctx, m))
     ctx.extra["steps_validated"] = steps
     ctx.evaluations = steps
